@@ -18,22 +18,22 @@ CHECKS = {
          "For each scenario EVERY operation index of the backup's storage trace is a crash point (plus the torn-write variant for every write); at each resulting archive state the five clauses of the statement are decided by independent oracles (the interrupted version is listed whole and below one path, and restored). Exhaustive over crash points within each scenario, sampled over scenarios.",
          "Trusted: E2 reader (snap, serde_json, blake2-rfc); the interceptor sees every storage effect (all archive I/O goes through Transport); kill = no further storage effect.", "3 C03"),
  "C04": ("fault_enumeration", "runtime monitor: every single storage fault (4 kinds) of a recorded trace + random multi-fault runs; independent decode of every recorded entry against source bytes",
-         "For each scenario EVERY operation of the backup's storage trace fails once with each of four error kinds, plus random multi-fault sequences real partial writes (the backup runs in a child under RLIMIT_FSIZE) and pairs of consecutive faults (operation k and whatever follows it, all kind pairs); afterwards every file entry of every band is resolved through the raw blocks by the independent reader and compared with the bytes that path had in that band's source, earlier files must be byte-identical, and a run reporting full success must restore exactly.",
+         "For each scenario EVERY operation of the backup's storage trace fails once with each of four error kinds, plus random multi-fault sequences real partial writes (the backup runs in a child under RLIMIT_FSIZE), persistent faults addressed by path, and pairs of consecutive faults (operation k and whatever follows it, all kind pairs); afterwards every file entry of every band is resolved through the raw blocks by the independent reader and compared with the bytes that path had in that band's source, earlier files must be byte-identical, and a run reporting full success must restore exactly.",
          "Trusted: E2 reader; a fault returns an error without executing the operation.", "3 C04"),
  "C05": ("fault_enumeration", "runtime monitor: all subsets x {dry, real} x every crash point x every failing read of delete_bands; independent reference scan + restore oracle",
-         "For generated archives every subset of versions, named in random order, is deleted (dry and real); a pre-placed GC_LOCK must be respected and left alone; gc and deletes also run on versions with more than 10 000 index hunks and on the repository's archives written by earlier releases; for real deletes every crash point of the delete's storage trace and every read/list/metadata fault of four kinds is replayed; an independent reference scan and restore-and-compare of every kept complete version decide the outcome.",
+         "For generated archives every subset of versions, named in random order, is deleted (dry and real); a pre-placed GC_LOCK must be respected and left alone; gc and deletes also run on versions with more than 10 000 index hunks and on the repository's archives written by earlier releases; every path the delete reads also fails persistently; for real deletes every crash point of the delete's storage trace and every read/list/metadata fault of four kinds is replayed; an independent reference scan and restore-and-compare of every kept complete version decide the outcome.",
          "Trusted: E2 reader; kill = no later storage effect.", "3 C05"),
  "C06": ("exploration", "runtime monitor: deterministic scheduler parks every storage operation of a backup and a gc running on their own threads; all schedules to a preemption bound + random; restore + reference-scan oracle at the end",
-         "Backup and gc/delete run concurrently on one archive with every storage operation parked until a deterministic scheduler grants it; all schedules with <=1 preemption, all 2-preemption schedules of one scenario (every scenario in the thorough tier) random 3-5-switch schedules and targeted 3-preemption plans are executed, plus all schedules up to two preemptions with a fault on the backup's second look for the lock, against the real code, over archives with garbage blocks that the backup deduplicates against. After both finish every complete version must restore exactly and reference no removed block.",
+         "Backup and gc/delete run concurrently on one archive with every storage operation parked until a deterministic scheduler grants it; all schedules with <=1 preemption, all 2-preemption schedules of one scenario (every scenario in the thorough tier) random 3-5-switch schedules and targeted 3-preemption plans are executed, plus all schedules up to two preemptions with a fault on the backup's second look for the lock, and with the collector's break_lock option set, against the real code, over archives with garbage blocks that the backup deduplicates against. After both finish every complete version must restore exactly and reference no removed block.",
          "Granularity is one storage operation (all archive I/O goes through Transport); interleavings beyond preemption bound 2 are sampled. Trusted: settled-detection of the scheduler (park callbacks + tracked top-level waker), E2 reader.", "3 C06"),
  "C07": ("exploration", "runtime monitor: write-once rules checked on the logged storage operations (with pre/post file state) of histories and of two racing backups under the deterministic scheduler",
-         "Every mutating storage operation of every backup, interrupted/torn/resumed backup, delete and gc in generated histories is logged with the target's state before and after and checked against the write-once rules (including one history on a version of more than 10 000 index hunks, and delete attempts under a foreign GC_LOCK); a gc and a delete race for the lock under the same scheduler with lock-ownership rules; two concurrent backups are run under all schedules to preemption bound 1, a grid (thorough: all) of bound 2 and random schedules, with the same rules on the merged log plus single-owner bands and exactly-one-winner.",
+         "Every mutating storage operation of every backup, interrupted/torn/resumed backup, delete and gc in generated histories is logged with the target's state before and after and checked against the write-once rules (including one history on a version of more than 10 000 index hunks, and delete attempts under a foreign GC_LOCK); a gc and a delete race for the lock under the same scheduler with lock-ownership rules; backup races are repeated with a BANDHEAD write failing (connection error); two concurrent backups are run under all schedules to preemption bound 1, a grid (thorough: all) of bound 2 and random schedules, with the same rules on the merged log plus single-owner bands and exactly-one-winner.",
          "Trusted: interceptor sees every storage effect; pre/post states read while the issuing actor is the only one running; E2 reference scan.", "3 C07"),
  "C08": ("exploration", "runtime monitor: executable stitching rule compared with the real listing on harness-written archives, bounded-exhaustive + random",
-         "Every arrangement of complete/incomplete/hunk-less/absent bands over small path alphabets and every hunk split (exhaustive for (B=2,P=4) and (B=3,P=3); thorough adds (B=4,P=2) and (B=3,P=4)) is written by the harness's own format writer and listed by the real code for every N; the result must equal an executable statement of the stitching rule, be strictly increasing, and finish within an operation budget; filter variants on a sample; random larger archives with removed hunks; band states include head-less directories and empty BANDHEAD files; one archive with more than 10 000 one-entry hunks per version.",
+         "Every arrangement of complete/incomplete/hunk-less/absent bands over small path alphabets and every hunk split (exhaustive for (B=2,P=4) and (B=3,P=3); thorough adds (B=4,P=2) and (B=3,P=4)) is written by the harness's own format writer and listed by the real code for every N; the result must equal an executable statement of the stitching rule, be strictly increasing, and finish within an operation budget; filter variants on a sample; random larger archives with removed hunks; band states include head-less directories and empty BANDHEAD files; one archive with more than 10 000 one-entry hunks per version, one with a chain of 130 interrupted versions, and listings with every read / listing failing once.",
          "Trusted: fmt06 writer/reader, oracle::stitch_model and oracle::apath_cmp as restatements of the documented rules. Termination is decided as bounded progress (operation budget).", "3 C08"),
  "C09": ("fault_enumeration", "runtime monitor: validate observed after every step of fault-free histories; every single-file damage of generated archives judged by restore-based harm oracle vs validate's report",
-         "Healthy side: full and quick validation after every archive-changing step of generated histories, and of two large archives written with default options (a combined block above the block size, a multi-block file, 300 blocks), must be silent, on both runtime flavours. Damage side: for EVERY file of generated archives x {delete, truncate 0, truncate half, garbage} and 8 bit flips per block, harm is decided by restoring every complete version and comparing with its pre-damage tree; every harmful damage must be reported by full validation (and deletions by quick validation), also with a stale GC_LOCK in the archive.",
+         "Healthy side: full and quick validation after every archive-changing step of generated histories, and of two large archives written with default options (a combined block above the block size, a multi-block file, 300 blocks), must be silent, on both runtime flavours. Damage side: for EVERY file of generated archives x {delete, truncate 0, truncate half, garbage} and 8 bit flips per block, harm is decided by restoring every complete version and comparing with its pre-damage tree; every harmful damage must be reported by full validation (and deletions by quick validation), also with a stale GC_LOCK in the archive; a 300-block archive is validated in a process limited to 160 open files.",
          "Trusted: restore-and-compare as the definition of harm; 'version' restricted to complete versions.", "3 C09"),
  "C10": ("fault_enumeration", "runtime monitor: every single-file damage of generated archives run through a child process; crash/termination, containment and follow-up-backup oracles; valgrind memcheck replay of hostile-byte cases",
          "For EVERY file of generated archives x {delete, truncate 0, truncate half, garbage} plus seeded bit flips in every file and JSON-level flips that keep hunks decodable, plus hunk damage on both sides of the index-subdirectory boundary of a 10 040-hunk version, a child process (for a quarter of the damages also one that holds and keeps using an Archive handle opened before the damage) runs versions / ls / restore of every band / validate full+quick / backup / restore; the parent decides normal termination (panic, abort, signal, operation-budget overrun), exact restoration of every entry that does not depend on the damaged file, error reporting for entries whose hunk or block became missing or undecodable or whose band's head is present but unreadable, and an exact follow-up backup after deletions and truncations. A sample of hostile-byte cases is replayed under valgrind memcheck.",
@@ -45,19 +45,19 @@ CHECKS = {
          "Generated trees with multi-byte names and siblings that extend one another; the real subtree listing is compared for every possible S with the component-wise filter of the full listing, and restore(only_subtree=S) for every directory with the same subtree of a full restore (bytes and metadata), nothing else created; also in versions with more than 10 000 index hunks and with 10 000 entries in one hunk.",
          "Trusted: harness walker; the full listing/restore as reference.", "3 C12"),
  "C13": ("exploration", "runtime monitor: independent format-0.6 reader checks every documented invariant after every archive-changing step of generated histories",
-         "After every backup, interrupted backup, delete and gc of generated histories (options chosen to produce every layout, wide and deep trees, a 10 051-hunk band, backups under a file-size limit (writes failing part-way), and backups during which files of the source are truncated, extended, replaced or removed underneath) an independent reader built from doc/format.md re-derives every invariant in the statement from the raw files.",
+         "After every backup, interrupted backup, delete and gc of generated histories (options chosen to produce every layout, wide and deep trees, a 10 051-hunk band, backups under a file-size limit (writes failing part-way), stored files above 2 MiB, and backups during which files of the source are truncated, extended, replaced or removed underneath) an independent reader built from doc/format.md re-derives every invariant in the statement from the raw files.",
          "Trusted: snap, serde_json, blake2-rfc; the reader follows the code where the document and the code disagree on a key name (len vs length).", "3 C13"),
  "C14": ("fault_enumeration", "runtime monitor: block-write events from the interceptor log (with pre-states) over histories; every crash point of an interrupted run followed by a resumed run",
-         "Write events under d/ are observed at the storage boundary: zero for an unchanged tree with identical decoded addresses, never for an existing non-empty block in any history, and for EVERY crash point of the interrupted run the resumed run writes none of the blocks left behind and reuses every recorded entry; scenarios with 9-20 MiB blocks and duplicate large content, far and future mtimes, a tree of more than 10 000 hunks, and second backups with the owner option switched off are included.",
+         "Write events under d/ are observed at the storage boundary: zero for an unchanged tree with identical decoded addresses, never for an existing non-empty block in any history, and for EVERY crash point of the interrupted run the resumed run writes none of the blocks left behind and reuses every recorded entry; scenarios with 9-20 MiB blocks and duplicate large content, far and future mtimes, a tree of more than 10 000 hunks, second backups with the owner option switched off and a hunk of tens of megabytes are included.",
          "Trusted: interceptor sees every write attempt; E2 reader.", "3 C14"),
  "C15": ("exploration", "runtime monitor: stored / listed / restored path sets under exclusions vs an independent glob oracle",
-         "Generated trees x pattern sets (anchored, unanchored, wildcards, classes, alternation, '**' as a component and glued to a name, other-case names, directories with children, non-ASCII, long lists, combined with a subtree selection, directories of hundreds of mostly-excluded files): the three code paths (walk pruning at backup, per-entry filter at list and at restore) are observed and each compared with the rule 'omitted iff it or an ancestor matches' evaluated by globs built from the raw patterns.",
+         "Generated trees x pattern sets (anchored, unanchored, wildcards, classes, alternation, '**' as a component and glued to a name, other-case names, directories with children, non-ASCII, long lists, combined with a subtree selection, directories of hundreds of mostly-excluded files, more than a thousand excluded directories): the three code paths (walk pruning at backup, per-entry filter at list and at restore) are observed and each compared with the rule 'omitted iff it or an ancestor matches' evaluated by globs built from the raw patterns.",
          "Trusted: globset for what one glob matches; E2 reader for the stored entries.", "3 C15"),
  "C16": ("exploration", "runtime monitor: lstat+content+ctime snapshots of the area around the destination before/after every restore, incl. stitched versions with entries below a symlink",
          "Source trees full of symlinks aimed at sentinel files and directories beside the destination (relative, absolute, '..', '/') are backed up and restored under several selections and destination states while a recursive snapshot including ctime watches everything outside the destination; non-empty destinations must be refused untouched; a version is restored with overwrite over a restore of another version in which its directories and files were symlinks; versions stitched (from two and three bands) from backups killed after a directory became a symlink are restored too.",
          "Trusted: ctime as witness of metadata writes through links; links in a pre-populated destination come only from restoring another version of the same archive.", "3 C16"),
  "C17": ("exploration", "runtime monitor: lock-step replay of histories into replica archives on differently scheduled runtimes, byte comparison after every step",
-         "Each generated history is executed from the same on-disk source states into a reference archive (current-thread runtime) and into replicas on 2- and 8-worker runtimes with random yields and sleeps before every storage operation; after every step the full directory trees must be byte-identical modulo head/tail timestamps; histories include deletes during which the removal of one particular block fails, a tree of more than 10 000 hunks, a replay before and after the wall clock passes a file's mtime, and a replay on storage with a stalled operation.",
+         "Each generated history is executed from the same on-disk source states into a reference archive (current-thread runtime) and into replicas on 2- and 8-worker runtimes with random yields and sleeps before every storage operation; after every step the full directory trees must be byte-identical modulo head/tail timestamps; histories include deletes during which the removal of one particular block fails, a tree of more than 10 000 hunks, a replay before and after the wall clock passes a file's mtime, and replays on storage with a stalled operation (real time and tokio's virtual clock).",
          "Scheduling diversity comes from runtime flavour, worker count and injected jitter; no separate-process replay.", "3 C17"),
  "C18": ("exploration", "runtime monitor: diff stream and backup change callback vs classification computed from two lstat snapshots",
          "Generated trees and mutation sets; diff(version, tree) with and without include_unchanged must equal, entry for entry and in order, the classification computed independently from the harness's snapshots, and the next backup's change callback must name the same added/changed/deleted files; owners with an unnamed user or group, fifos and sockets, a diff with an exclusion and a version with more than 10 000 hunks are included.",
